@@ -424,6 +424,7 @@ var pinnedCases = map[string]Case{
 
 func TestC11(t *testing.T) {
 	defer st.Emit()
+	defer staleCheck(t)
 	if stat.ReplayPath() == "" && os.Getenv("VERIF_ONLY") == "" {
 		stat.Pinned(t, st, "reconnect", pinnedCases, func(c Case) *stat.Failure {
 			st.CaseJSON(c, true, "pinned")
